@@ -26,8 +26,7 @@ struct Exec {
 
     // ---------------------------------------------------------------- reference (model) side
     template <class F> bool model_call(F f) {
-        dirty_stack(~w_stack ^ (uint64_t)cur * 0x1234567);
-        bool ok = GUARDED_CALL(f());
+        bool ok = GUARDED_CALL_DIRTY(~w_stack ^ (uint64_t)cur * 0x1234567, f());
         if (!ok) violate("reference-crash", strf("a scalar reference call made by the model crashed (signal %d at %s)", g_crash.sig, classify_addr((void *)g_crash.addr).c_str()));
         return ok;
     }
@@ -268,24 +267,23 @@ struct Exec {
         // --- the call
         int ret = -1; bool ok;
         uint64_t stackpat = w_stack ^ (uint64_t)(i + 1) * 0x9E3779B97F4A7C15ULL;
-        dirty_stack(stackpat);
         ++R.lib_calls;
         switch (o.code) {
         case OP_INIT:
-            if ((o.flags & F_JUNKREGS) || cfg.use_junk_regs) ok = GUARDED_CALL(ret = (int)call_with_junk_regs(lib_init_fn(k), obj, stackpat));
-            else ok = GUARDED_CALL(ret = lib_init(k, obj));
+            if ((o.flags & F_JUNKREGS) || cfg.use_junk_regs) ok = GUARDED_CALL_DIRTY(stackpat, ret = (int)call_with_junk_regs(lib_init_fn(k), obj, stackpat));
+            else ok = GUARDED_CALL_DIRTY(stackpat, ret = lib_init(k, obj));
             break;
-        case OP_CLEANUP: ok = GUARDED_CALL(lib_cleanup(k, obj)); break;
+        case OP_CLEANUP: ok = GUARDED_CALL_DIRTY(stackpat, lib_cleanup(k, obj)); break;
         case OP_ZERO: memset(st.h, 0, st.hsize); ok = true; break;
-        case OP_SETKEY: ok = GUARDED_CALL(ret = lib_setkey(k, obj, pa, o.size, o.rounds, o.mode)); break;
-        case OP_SETTKEY: ok = GUARDED_CALL(ret = lib_settkey(k, obj, pa, o.size)); break;
-        case OP_SETTWEAK: ok = GUARDED_CALL(ret = lib_settweak(k, obj, pa, o.size)); break;
-        case OP_SETCTR: ok = GUARDED_CALL(ret = lib_setctr(k, obj, pa, o.size)); break;
-        case OP_ENC: ok = GUARDED_CALL(ret = lib_enc(k, pout, pin, o.size, obj)); break;
-        case OP_PENC: ok = GUARDED_CALL(ret = lib_par(k, false, pout, pin, pb, o.size, obj)); break;
-        case OP_PDEC: ok = GUARDED_CALL(ret = lib_par(k, true, pout, pin, pb, o.size, obj)); break;
-        case OP_BENC: case OP_BDEC: case OP_BTWK: ok = GUARDED_CALL(lib_block(k, o.code, pout, pin, pb, obj)); break;
-        case OP_SWAP: ok = GUARDED_CALL(lib_swap(k, obj)); break;
+        case OP_SETKEY: ok = GUARDED_CALL_DIRTY(stackpat, ret = lib_setkey(k, obj, pa, o.size, o.rounds, o.mode)); break;
+        case OP_SETTKEY: ok = GUARDED_CALL_DIRTY(stackpat, ret = lib_settkey(k, obj, pa, o.size)); break;
+        case OP_SETTWEAK: ok = GUARDED_CALL_DIRTY(stackpat, ret = lib_settweak(k, obj, pa, o.size)); break;
+        case OP_SETCTR: ok = GUARDED_CALL_DIRTY(stackpat, ret = lib_setctr(k, obj, pa, o.size)); break;
+        case OP_ENC: ok = GUARDED_CALL_DIRTY(stackpat, ret = lib_enc(k, pout, pin, o.size, obj)); break;
+        case OP_PENC: ok = GUARDED_CALL_DIRTY(stackpat, ret = lib_par(k, false, pout, pin, pb, o.size, obj)); break;
+        case OP_PDEC: ok = GUARDED_CALL_DIRTY(stackpat, ret = lib_par(k, true, pout, pin, pb, o.size, obj)); break;
+        case OP_BENC: case OP_BDEC: case OP_BTWK: ok = GUARDED_CALL_DIRTY(stackpat, lib_block(k, o.code, pout, pin, pb, obj)); break;
+        case OP_SWAP: ok = GUARDED_CALL_DIRTY(stackpat, lib_swap(k, obj)); break;
         default: ok = true; break;
         }
         for (auto &t : g_cpu.traps) log.ev("cpu", t.kind, t.leaf, t.subleaf);
@@ -574,11 +572,11 @@ struct Exec {
     }
 };
 
-}   // namespace
-
+static void exec_tramp(void *p) { ((Exec *)p)->run(); }
+}
 RunResult execute(const Plan &plan, const ExecCfg &cfg) {
     RunResult R;
     Exec e(plan, cfg, R);
-    e.run();
+    run_on_sim_stack(exec_tramp, &e);
     return R;
 }
